@@ -239,7 +239,11 @@ SE2Base<_Derived>::log(OptJacobianRef J_t_m) const
   {
     // Euler
     A = sin_theta / theta;
-    B = (Scalar(1) - cos_theta) / theta;
+    // 1-cos = sin^2/(1+cos) on the half plane cos > 0: nothing cancels, so B and
+    // its derivative (autodiff scalars) stay accurate for small theta
+    B = (cos_theta > Scalar(0)) ?
+          sin_theta * sin_theta / ((Scalar(1) + cos_theta) * theta) :
+          (Scalar(1) - cos_theta) / theta;
   }
 
   const Scalar den = Scalar(1) / (A*A + B*B);
